@@ -23,6 +23,7 @@ from ..astutil import call_name, calls, const_eval, dotted, names_in, param_name
 from ..exprnorm import contains_expr, same_expr
 from ..core import AnalysisError, Mutant
 from ..layout import float_field_width, parse_spec
+from ..exprnorm import has_code
 
 EXPLANATION = (
     "Width calculus of the V2000 f-strings vs. the reader's slices, guard/argument agreement, "
@@ -318,7 +319,7 @@ def run(ctx):
     # element width
     el = [k for o, w, k in atom_fields if k[0] == "val" and "element" in k[1]][0]
     eg = [st for st in stmts(wr) if isinstance(st, ast.If) and any(isinstance(b, ast.Raise) for b in st.body)
-          and "len(element)" in ast.unparse(st.test) and "atoms.element" in ast.unparse(st.test)]
+          and has_code(st.test, "len(element)") and "atoms.element" in ast.unparse(st.test)]
     bound = None
     if eg:
         for c in ast.walk(eg[0].test):
@@ -486,7 +487,7 @@ def run(ctx):
            any(isinstance(st, ast.Assign) and ast.unparse(st.targets[0]) == "self[key]" for st in stmts(init)),
            "Metadata(mapping) bypasses the checks of item assignment", init.lineno)
     ctx.ob("R5.empty-value-refused", SDF, "Metadata.__setitem__", "len(value) == 0 -> raise",
-           any(isinstance(st, ast.If) and "len(value) == 0" in ast.unparse(st.test) and any(isinstance(b, ast.Raise) for b in st.body)
+           any(isinstance(st, ast.If) and has_code(st.test, "len(value) == 0") and any(isinstance(b, ast.Raise) for b in st.body)
                for st in stmts(si)), "a key without value cannot be read back", si.lineno, nontrivial=False)
     # key grammar: what serialize emits is what the component regexes accept
     ks = sd.func("Metadata.Key.serialize")
@@ -573,7 +574,7 @@ def run(ctx):
     for st in stmts(hdz):
         if isinstance(st, ast.Assign) and isinstance(st.targets[0], ast.Name):
             sl = sorted(reader_slices(st))
-            if sl and "lines[1]" in ast.unparse(st.value):
+            if sl and has_code(st.value, "lines[1]"):
                 rcols[st.targets[0].id] = sl[0]
     names = {"time_str": "time_string"}
     for a, b, nm in wcols:
